@@ -135,6 +135,10 @@ inductive Pred where
   | region (lt : Name) (bounds : List Name)
   | eq (l r : Ty)
 
+def Bounds.isNil : Bounds → Bool
+  | .nil => true
+  | _ => false
+
 /-! ## Fixed pieces -/
 
 def optTok : Option Tok → Toks
@@ -184,8 +188,9 @@ def fnTypeToks (items : List Toks) (variadic : Bool) (ret : Toks) : Toks :=
 
 def wrapBrace (b : Bool) (ts : Toks) : Toks := if b then [mkO '{'] ++ ts ++ [mkC '}'] else ts
 
-def boundsAfterColon (items : List Toks) : Toks :=
-  if items.isEmpty then [] else [tP ':'] ++ sepBy plus items
+/-- `GenericParam`: the `:` and the bounds are written when there is a bound -/
+def boundsAfterColon (none : Bool) (joined : Toks) : Toks :=
+  if none then [] else [tP ':'] ++ joined
 
 /-! ## The canonical printing -/
 
@@ -248,7 +253,7 @@ def canonParams (abi : Bool) : Params → List Toks
   | .nil => []
   | .lifetime n bs r => ([tL n] ++ ltBoundsToks bs) :: canonParams abi r
   | .type n bs d r =>
-    ([tI n] ++ boundsAfterColon (canonBounds abi bs) ++ canonOptTy abi [tP '='] d) :: canonParams abi r
+    ([tI n] ++ boundsAfterColon bs.isNil (sepBy plus (canonBounds abi bs)) ++ canonOptTy abi [tP '='] d) :: canonParams abi r
   | .const n t d r =>
     ([kw "const", tI n, tP ':'] ++ canonTy abi t ++ (match d with | some v => [tP '=', v] | none => []))
       :: canonParams abi r
@@ -446,7 +451,7 @@ def rwParams (e : Env) (p : Piece) (i : Nat) : Params → Option (List Toks)
       let item ← att (e.fits (p ++ [i])) do
         let bt ← joinB (rwBounds e (p ++ [i, 0]) 0 bs) (e.fits (p ++ [i, 2])) (rwBounds e (p ++ [i, 1]) 0 bs)
         let dt ← rwOptTy e (p ++ [i, 3]) [tP '='] d
-        pure ([tI n] ++ (if bt.isEmpty then [] else [tP ':'] ++ bt) ++ dt)
+        pure ([tI n] ++ boundsAfterColon bs.isNil bt ++ dt)
       let rest ← rwParams e p (i + 1) r
       pure (item :: rest)
   | .const n t d r => do
